@@ -346,6 +346,8 @@ func (s *kvGenState) writeOp() {
 			}
 			s.createAt("w", p)
 			s.op("prefix-w", "prefix w %s -", pt)
+			s.op("names-w", "names w %s", pt)
+			s.op("has-w", "has w %s", kvPathTok(append(append([]string{}, p...), kvGoodNames[r.Intn(5)])))
 		} else {
 			s.createAt("w", p)
 			s.createAt("w", p)
@@ -437,8 +439,6 @@ func (s *kvGenState) history(maxOps int) {
 			}
 		case x == 97 && r.Intn(6) == 0:
 			s.op("probe", "probe")
-		case x == 97 && r.Intn(3) == 0:
-			s.op("raw", "raw")
 		case x >= 98 && !s.rOpen && !s.wOpen:
 			s.op("begin-read", "begin %s", pick(r, "r", "v"))
 			s.rOpen = true
@@ -456,7 +456,6 @@ func (s *kvGenState) history(maxOps int) {
 	if r.Intn(g.Scale(2, 12)) == 0 {
 		s.op("reopen", "reopen")
 	}
-	s.op("raw", "raw")
 	s.op("begin-read", "begin r")
 	s.op("names-r", "names r /")
 	ks := sortedKeys(s.committed)
@@ -470,6 +469,11 @@ func (s *kvGenState) history(maxOps int) {
 		s.op("names-r", "names r %s", pt)
 	}
 	s.op("endr", "endr")
+	// the raw key space last (and not in every history): a disagreement the specification can see
+	// is met first
+	if r.Intn(3) == 0 {
+		s.op("raw", "raw")
+	}
 }
 
 // deep nesting: depth 9 -> 10 -> 11 changes the width of the depth prefix
